@@ -219,6 +219,28 @@ func (f *frame) storeAt(p Val, t types.Type, val string, st *hstate) *hstate {
 // allocation only grows, closed channels stay closed.
 func (f *frame) havocTo(from *hstate, names map[string]bool) {
 	vc := f.vc
+	// the two heaps of a map type change together (the canonical-form axiom pairs the versions of one state)
+	var add []string
+	for n := range names {
+		if strings.HasPrefix(n, "MH.") && !names["MV."+n[3:]] {
+			add = append(add, "MV."+n[3:])
+		}
+		if strings.HasPrefix(n, "MV.") && !names["MH."+n[3:]] {
+			add = append(add, "MH."+n[3:])
+		}
+	}
+	if len(add) > 0 {
+		nn := map[string]bool{}
+		for n := range names {
+			nn[n] = true
+		}
+		for _, n := range add {
+			if _, ok := vc.sortForHeap(n); ok {
+				nn[n] = true
+			}
+		}
+		names = nn
+	}
 	f.st = vc.havoc(from, names)
 	if names["*"] {
 		vc.didHavocAll = true
